@@ -128,4 +128,8 @@ struct RcuComp {
         out.push_back({-1, (long)vs::rcu::reg().cells.size(), nf, vs::rcu::reg().faults > 0 ? 1 : 0});
     }
 };
+// UBSan's fatal path does not run the ASan death callback that driver.hpp installs, so the trace of a run
+// that ends in a UBSan report would be lost; make it abort() instead: the driver's SIGABRT handler flushes
+// the log (the environment's UBSAN_OPTIONS only overrides the flags it names).
+// __ubsan_default_options is now provided by driver.hpp
 int main(int argc, char** argv) { return vs::drive<RcuComp>(argc, argv); }
